@@ -95,7 +95,17 @@ func isNamed(t types.Type, pkg, name string) bool {
 	return o.Name() == name && o.Pkg() != nil && o.Pkg().Path() == pkg
 }
 
-func isTime(t types.Type) bool    { return isNamed(t, "time", "Time") }
+func isTime(t types.Type) bool {
+	if isNamed(t, "time", "Time") {
+		return true
+	}
+	// a defined type over time.Time (type DateFlag time.Time): the same representation
+	if st, ok := types.Unalias(t).Underlying().(*types.Struct); ok && st.NumFields() == 3 &&
+		st.Field(0).Name() == "wall" && st.Field(1).Name() == "ext" && st.Field(2).Name() == "loc" {
+		return true
+	}
+	return false
+}
 func isDecimal(t types.Type) bool { return isNamed(t, "github.com/shopspring/decimal", "Decimal") }
 
 // opaque named struct types handled as abstract refs/values
